@@ -9,6 +9,7 @@ import (
 	anystore "github.com/anyproto/any-store"
 
 	"github.com/anyproto/any-sync/commonspace/object/tree/objecttree"
+	"github.com/anyproto/any-sync/commonspace/object/tree/synctree/response"
 	"github.com/anyproto/any-sync/commonspace/object/tree/treechangeproto"
 	"github.com/anyproto/any-sync/util/slice"
 )
@@ -320,6 +321,69 @@ func (w *world) apply(rep *replica, m message, what string) (objecttree.AddResul
 	return res, true
 }
 
+// applyRefused delivers a batch while the receiver's validator refuses one of its changes: AddRawChanges must fail
+// and leave the tree exactly as it was (rollback) - same presented sequence, heads, root, attached set, storage - and
+// the usual view/storage oracles must keep holding afterwards, also across a reopen.
+func (w *world) applyRefused(rep *replica, m message) {
+	if hasHeads(rep.tree, m.heads) {
+		return
+	}
+	var cand []string
+	ids := make([]string, len(m.changes))
+	for i, c := range m.changes {
+		ids[i] = c.Id
+		if !rep.tree.HasChanges(c.Id) {
+			cand = append(cand, c.Id)
+		}
+	}
+	if len(cand) == 0 {
+		return
+	}
+	refused := cand[w.r.Intn(len(cand))]
+	before := iterIds(rep.tree)
+	headsBefore := sortedCopy(rep.tree.Heads())
+	rootBefore := rep.tree.Root().Id
+	attBefore := objecttree.VerifTree(rep.tree).VerifAttachedIds()
+	storedBefore := storedIds(w.stored(rep))
+	objecttree.VerifSetRefuse(rep.tree, func(ch *objecttree.Change) bool { return ch.Id == refused })
+	rep.cache = nil
+	rep.tree.Lock()
+	res, err := rep.tree.AddRawChanges(w.ctx, objecttree.RawChangesPayload{NewHeads: m.heads, RawChanges: m.changes, SnapshotPath: m.path})
+	rep.tree.Unlock()
+	objecttree.VerifSetRefuse(rep.tree, nil)
+	what := fmt.Sprintf("refused(%s) %s", refused, m.kind)
+	if err == nil {
+		// the marked change was not among the newly attached ones (unattachable yet, or the rebuild path, which
+		// validates the whole tree): an ordinary addition
+		var added []string
+		for _, a := range res.Added {
+			added = append(added, a.Id)
+		}
+		w.logf("%s rep%d<-rep%d heads=%s path=%s changes=%s NOT-REFUSED mode=%s added=%s root=%s", what, rep.idx, m.from, join(m.heads), join(m.path), join(ids), modeName(res.Mode), join(added), rep.tree.Root().Id)
+		w.r.Count("refuse.not-triggered")
+		w.checkMode(rep, what, before, res.Mode)
+		w.checkReplica(rep, what)
+		return
+	}
+	w.logf("%s rep%d<-rep%d heads=%s path=%s changes=%s REFUSED (%v)", what, rep.idx, m.from, join(m.heads), join(m.path), join(ids), err)
+	w.r.Count("refuse.rolled-back")
+	after := iterIds(rep.tree)
+	if !eqStr(before, after) || rootBefore != rep.tree.Root().Id || !eqStr(headsBefore, sortedCopy(rep.tree.Heads())) ||
+		!eqStr(attBefore, objecttree.VerifTree(rep.tree).VerifAttachedIds()) {
+		w.violate("C06", "refuse.rollback", fmt.Sprintf("%s: rep%d refused the batch but its view changed: presented %s (root %s heads %s, holds %s) before, %s (root %s heads %s, holds %s) after",
+			what, rep.idx, join(before), rootBefore, join(headsBefore), join(attBefore), join(after), rep.tree.Root().Id, join(sortedCopy(rep.tree.Heads())), join(objecttree.VerifTree(rep.tree).VerifAttachedIds())))
+		return
+	}
+	if !eqStr(storedBefore, storedIds(w.stored(rep))) {
+		w.violate("C06", "refuse.stored", fmt.Sprintf("%s: rep%d refused the batch but its storage changed", what, rep.idx))
+		return
+	}
+	w.checkReplica(rep, what)
+	if !w.failed && w.r.Chance(40) {
+		w.reopenReplica(rep)
+	}
+}
+
 func (w *world) deliverOne() {
 	if len(w.queue) == 0 {
 		return
@@ -337,6 +401,12 @@ func (w *world) deliverOne() {
 		return
 	}
 	rep := w.reps[m.to]
+	if w.r.Chance(w.refusePct) {
+		// the receiver's validator refuses the batch this time (e.g. it cannot check it yet); it is delivered again later
+		w.applyRefused(rep, m)
+		w.queue = append(w.queue, m)
+		return
+	}
 	res, ok := w.apply(rep, m, m.kind)
 	if ok && !slice.UnsortedEquals(res.Heads, m.heads) && w.r.Chance(60) {
 		// what the sync handler does next: a full sync request to the sender
@@ -356,21 +426,24 @@ type loaderBatch struct {
 // runLoader streams the responder's answer to (theirHeads, theirPath) with the given limit, exactly as
 // HandleStreamRequest does: NewResponse until a batch without changes.
 func (w *world) runLoader(resp *replica, theirHeads, theirPath []string, limit int) ([]loaderBatch, error) {
+	// through the real response producer (what HandleStreamRequest sends): created under the tree lock, the messages
+	// produced after releasing it; the oracles judge the heads / path / changes of every produced MESSAGE
 	resp.tree.Lock()
-	defer resp.tree.Unlock()
-	it, err := resp.tree.ChangesAfterCommonSnapshotLoader(theirPath, theirHeads)
+	it, err := response.NewResponseProducer("spaceId", resp.tree, theirHeads, theirPath)
+	resp.tree.Unlock()
 	if err != nil {
 		return nil, err
 	}
 	var res []loaderBatch
 	for guard := 0; ; guard++ {
-		b, err := it.NextBatch(limit)
+		m, err := it.NewResponse(limit)
 		if err != nil {
 			return nil, err
 		}
-		if len(b.Batch) == 0 {
+		if len(m.Changes) == 0 {
 			break
 		}
+		b := objecttree.IteratorBatch{Batch: m.Changes, Heads: m.Heads, SnapshotPath: m.SnapshotPath}
 		lb := loaderBatch{heads: append([]string{}, b.Heads...), path: append([]string{}, b.SnapshotPath...), raw: b.Batch}
 		for _, c := range b.Batch {
 			lb.ids = append(lb.ids, c.Id)
@@ -464,7 +537,7 @@ func (w *world) interleavedSync(resp, req *replica, limit int) {
 	w.logf("interleaved-sync rep%d asks rep%d heads=%s path=%s limit=%d", req.idx, resp.idx, join(heads), join(path), limit)
 	w.r.Count("op.interleaved")
 	resp.tree.Lock()
-	it, err := resp.tree.ChangesAfterCommonSnapshotLoader(path, heads)
+	it, err := response.NewResponseProducer("spaceId", resp.tree, heads, path)
 	resp.tree.Unlock()
 	if err != nil {
 		w.violate("C09", "loader.error", fmt.Sprintf("loader of rep%d failed for request heads=%s path=%s: %v", resp.idx, join(heads), join(path), err))
@@ -492,14 +565,15 @@ func (w *world) interleavedSync(resp, req *replica, limit int) {
 		if w.failed {
 			return
 		}
-		b, err := it.NextBatch(limit)
+		m, err := it.NewResponse(limit)
 		if err != nil {
-			w.violate("C09", "loader.error", fmt.Sprintf("NextBatch of rep%d failed: %v", resp.idx, err))
+			w.violate("C09", "loader.error", fmt.Sprintf("NewResponse of rep%d failed: %v", resp.idx, err))
 			return
 		}
-		if len(b.Batch) == 0 {
+		if len(m.Changes) == 0 {
 			break
 		}
+		b := objecttree.IteratorBatch{Batch: m.Changes, Heads: m.Heads, SnapshotPath: m.SnapshotPath}
 		lb := loaderBatch{heads: append([]string{}, b.Heads...), path: append([]string{}, b.SnapshotPath...), raw: b.Batch}
 		for _, c := range b.Batch {
 			lb.ids = append(lb.ids, c.Id)
